@@ -146,3 +146,16 @@ Definition ops_case (rt maxdT T0 : Q) (sizes : list nat) (chk : bool) (l : list 
   (follow rt maxdT true (init Qops T0 sizes) None [] 0 l,
    follow rt maxdT false (init Qops T0 sizes) None [] 0 l,
    if chk then forallb (fun s => Qle_bool (maxdev s) maxdT) (trace Qops maxdT T0 sizes (map fst l)) else true).
+
+(* a run made of several solve calls: per segment the parameter object in force and the (time, recorded
+   temperature) pairs of its steps; (isothermal flag per segment, same number of records, first bad index) *)
+Definition recs_case (rt : Q) (p0 : tparams Qops) (t0 v0 : Q) (segs : list (tparams Qops * list (Q * Q)))
+  : list bool * bool * option nat :=
+  let d := run_segs Qops p0 t0 (map (fun sg => (fst sg, map fst (snd sg))) segs) in
+  let flat := (p0, t0, v0) :: flat_map (fun sg => map (fun sv => (fst sg, fst sv, snd sv)) (snd sg)) segs in
+  (map (fun sg => isIso Qops (fst sg)) segs,
+   Nat.eqb (length (p_temp Qops d)) (length flat) && all2 Qeq_bool (p_time Qops d) (map (fun x => snd (fst x)) flat),
+   first_bad (fun xm => match xm with ((p, s, v), m) =>
+                let (lo, hi) := sched_range p s (Qred (rt * qabs s)) in
+                in_range rt (qmin lo m, qmax hi m) v end) 0 (combine flat (p_temp Qops d))).
+
